@@ -129,7 +129,27 @@ func onceTableAgree(fork *srcPkg, n string, rf *ast.FuncDecl) (applies, ok bool,
 		return true, false, "cannot re-parse the reference body"
 	}
 	refStmts := f.Decls[0].(*ast.FuncDecl).Body.List
-	mid := fl.Body.List[1 : len(fl.Body.List)-1]
+	mid := append([]ast.Stmt(nil), fl.Body.List[1:len(fl.Body.List)-1]...)
+	// `for i := range table` over the fresh [N]T table is `for i := 0; i < N; i++`
+	if n := arrayLenOfFresh(first); n != nil {
+		for k, st := range mid {
+			rs, ok := st.(*ast.RangeStmt)
+			if !ok || rs.Value != nil || rs.Tok != token.DEFINE {
+				continue
+			}
+			x, ok1 := rs.X.(*ast.Ident)
+			key, ok2 := rs.Key.(*ast.Ident)
+			if !ok1 || !ok2 || x.Name != tname {
+				continue
+			}
+			mid[k] = &ast.ForStmt{
+				Init: &ast.AssignStmt{Lhs: []ast.Expr{ast.NewIdent(key.Name)}, Tok: token.DEFINE, Rhs: []ast.Expr{&ast.BasicLit{Kind: token.INT, Value: "0"}}},
+				Cond: &ast.BinaryExpr{X: ast.NewIdent(key.Name), Op: token.LSS, Y: n},
+				Post: &ast.IncDecStmt{X: ast.NewIdent(key.Name), Tok: token.INC},
+				Body: rs.Body,
+			}
+		}
+	}
 	if len(mid) != len(refStmts) {
 		return true, false, "the table is not built by the reference's statements (statement count differs)"
 	}
@@ -183,4 +203,41 @@ func c14TablesAgree(p *Prog, r *Report, rule string) {
 		}
 		r.Check(ok, rule, "edwards25519."+n+" is built as in the standard library (once, completely, before use)", pr.fork, "agrees with the reference", "the fixed-base table is no longer the standard library's: "+diff)
 	}
+}
+
+// arrayLenOfFresh: the length literal N of the table allocated by the first
+// statement (`table := new([N]T)`, `table := &[N]T{}`, `var table [N]T`).
+func arrayLenOfFresh(first ast.Stmt) *ast.BasicLit {
+	var t ast.Expr
+	switch d := first.(type) {
+	case *ast.AssignStmt:
+		if len(d.Rhs) != 1 {
+			return nil
+		}
+		switch r := d.Rhs[0].(type) {
+		case *ast.CallExpr:
+			if len(r.Args) == 1 {
+				t = r.Args[0]
+			}
+		case *ast.UnaryExpr:
+			if cl, ok := r.X.(*ast.CompositeLit); ok {
+				t = cl.Type
+			}
+		}
+	case *ast.DeclStmt:
+		if gd, ok := d.Decl.(*ast.GenDecl); ok && len(gd.Specs) == 1 {
+			if vs, ok := gd.Specs[0].(*ast.ValueSpec); ok {
+				t = vs.Type
+			}
+		}
+	}
+	at, ok := t.(*ast.ArrayType)
+	if !ok {
+		return nil
+	}
+	bl, ok := at.Len.(*ast.BasicLit)
+	if !ok || bl.Kind != token.INT {
+		return nil
+	}
+	return bl
 }
